@@ -456,23 +456,26 @@ impl Gate {
                     self.unsubscribe(slot).await
                 }
 
-                GateCommand::FollowSubscribe {
-                    slot,
-                    update_sender,
-                } => {
+                // A clone shares the `updates` and `suspended` maps with its
+                // parent (see `Clone for Gate`), so by the time a Follow*
+                // command arrives the parent has already applied the change.
+                // Applying it again here, possibly much later, would undo
+                // whatever the parent did to the same slot in the meantime,
+                // e.g. re-insert a slot that has since been unsubscribed or
+                // suspended. The commands only serve to wake the clone up
+                // so that it notices the gate status change below.
+                GateCommand::FollowSubscribe { .. } => {
                     assert!(
                         self.is_clone(),
                         "Only cloned gates support the FollowSubscribe command"
                     );
-                    self.updates.insert(slot, update_sender);
                 }
 
-                GateCommand::FollowUnsubscribe { slot } => {
+                GateCommand::FollowUnsubscribe { .. } => {
                     assert!(
                         self.is_clone(),
                         "Only cloned gates support the FollowUnsubscribe command"
                     );
-                    self.updates.remove(&slot);
                 }
 
                 GateCommand::Reconfigure {
